@@ -85,7 +85,24 @@ type Axiom struct {
 	Pkg string
 }
 
+// Guard: a struct field that may only be accessed while one of the listed mutex fields
+// of the same object is held (lock discipline as a contract).
+type Guard struct {
+	Type    string // struct type name, local to the package (e.g. runnerRef)
+	Pkg     string
+	Field   string
+	Mutexes []string
+}
+
+type LockInv struct {
+	Type, Pkg, Mutex string
+	C                Clause
+}
+
 type ContractDB struct {
+	Dups []string
+	Guards   map[string]*Guard // key: pkgpath.Type.field
+	LockInvs map[string]*LockInv // key: pkgpath.Type.mutex
 	GhostFields map[string]bool
 	Funcs   map[string]*Contract
 	Specs   map[string]*SpecFunc
@@ -101,7 +118,7 @@ func NewContractDB() *ContractDB {
 var clauseKeywords = map[string]bool{
 	"func": true, "extern": true, "spec": true, "axiom": true, "lemma": true,
 	"requires": true, "ensures": true, "modifies": true, "loop": true, "assert-at": true, "assume-at": true, "ghost-at": true,
-	"pure": true, "opt": true, "readonly": true, "decreases": true, "induction": true, "uses": true,
+	"guarded": true, "lockinv": true, "pure": true, "opt": true, "readonly": true, "decreases": true, "induction": true, "uses": true,
 }
 
 // LoadContractFile parses one comment-only contract file. pkgPath is the import
@@ -179,9 +196,16 @@ func (db *ContractDB) LoadContractFile(path, pkgPath string) error {
 			}
 			cur = &Contract{Key: key, Pkg: pkgPath, Extern: ext, LoopInv: map[int][]Clause{}, LoopDec: map[int]Clause{}, Opts: map[string]string{}, File: path, Line: rc.line}
 			if old, dup := db.Funcs[key]; dup {
-				return fmt.Errorf("%s:%d: duplicate contract for %s (first at %s:%d)", path, rc.line, key, old.File, old.Line)
+				if !(old.Extern && ext) {
+					return fmt.Errorf("%s:%d: duplicate contract for %s (first at %s:%d)", path, rc.line, key, old.File, old.Line)
+				}
+				// the same library function declared by two contract files: the first
+				// declaration (files are loaded in sorted order) is the one in force;
+				// the clauses of this one are parsed but not used
+				db.Dups = append(db.Dups, fmt.Sprintf("%s declared again at %s:%d (in force: %s:%d)", key, path, rc.line, old.File, old.Line))
+			} else {
+				db.Funcs[key] = cur
 			}
-			db.Funcs[key] = cur
 			curLemma, curSpec = nil, nil
 		case "requires", "ensures":
 			c, err := mk(rest, rc.line)
@@ -334,6 +358,46 @@ func (db *ContractDB) LoadContractFile(path, pkgPath string) error {
 				}
 				curSpec.Dec = e
 			}
+		case "guarded":
+			// guarded (T).f1, f2 by mu1 | mu2
+			k := strings.Index(rest, " by ")
+			if k < 0 {
+				return fmt.Errorf("%s:%d: guarded needs ' by '", path, rc.line)
+			}
+			lhs, rhs := strings.TrimSpace(rest[:k]), strings.TrimSpace(rest[k+4:])
+			m := regexp.MustCompile(`^\(([A-Za-z0-9_]+)\)\.(.*)$`).FindStringSubmatch(lhs)
+			if m == nil {
+				return fmt.Errorf("%s:%d: guarded (T).field by mutex", path, rc.line)
+			}
+			var mus []string
+			for _, x := range strings.Split(rhs, "|") {
+				mus = append(mus, strings.TrimSpace(x))
+			}
+			if db.Guards == nil {
+				db.Guards = map[string]*Guard{}
+			}
+			for _, f := range strings.Split(m[2], ",") {
+				f = strings.TrimSpace(f)
+				db.Guards[pkgPath+"."+m[1]+"."+f] = &Guard{Type: m[1], Pkg: pkgPath, Field: f, Mutexes: mus}
+			}
+		case "lockinv":
+			// lockinv (T).mu : expr   (the receiver is named `this`)
+			k := strings.Index(rest, " : ")
+			if k < 0 {
+				return fmt.Errorf("%s:%d: lockinv needs ' : '", path, rc.line)
+			}
+			m := regexp.MustCompile(`^\(([A-Za-z0-9_]+)\)\.([A-Za-z0-9_]+)$`).FindStringSubmatch(strings.TrimSpace(rest[:k]))
+			if m == nil {
+				return fmt.Errorf("%s:%d: lockinv (T).mutex : expr", path, rc.line)
+			}
+			c, err := mk(rest[k+3:], rc.line)
+			if err != nil {
+				return err
+			}
+			if db.LockInvs == nil {
+				db.LockInvs = map[string]*LockInv{}
+			}
+			db.LockInvs[pkgPath+"."+m[1]+"."+m[2]] = &LockInv{Type: m[1], Pkg: pkgPath, Mutex: m[2], C: c}
 		case "axiom":
 			c, err := mk(rest, rc.line)
 			if err != nil {
